@@ -1,5 +1,6 @@
 """I1 ISOLATE, I2 ONCE-GUARD, I3 WHO-MAY-WRITE, O1 ORPHAN-DEDUPE, R1 REWIND  (C02, C14, C15, C16)."""
 import ast
+import re
 
 from ..core.loader import AnalysisError, dotted, norm, own_nodes, where, full, enclosing_class
 from ..core.terms import Term, Evaluator
@@ -503,10 +504,74 @@ def rule_O1(ctx):
     ctx.ob("O1", op, "the orphans are exported through a pseudo-volume", ok, "", inst="pseudo-volume")
     # per-performance collection
     sf = ctx.fn(RO + "sample_file.py", "SampleFileListAdapter._decode", "O1")
-    t = full(sf)
-    ok = "for partial_entry in patch_entry.partial_entries" in t and "for sample_entry in partial_entry.sample_entries" in t \
-        and "if sample_entry.index not in sample_files.keys()" in t and "sample_files[sample_entry.index] = sample_file" in t and "list(sample_files.values())" in t
-    ctx.ob("O1", sf, "every sample of every partial of a patch is collected once, keyed by its sample index", ok, "", inst="collect-samples")
+    # decided on the iteration paths of the inner loop: an entry is added exactly when its index has not been seen, the index is
+    # recorded with it, and what is returned is the collection in first-seen order (dict keyed by index, or list + seen-set)
+    from .streams import _walk as _wo
+    from .util import evaluator as _evo, norm_conds as _nco
+    scfg = ctx.cfg(sf, "O1")
+    fors_ = [f for f in own_nodes(sf) if isinstance(f, ast.For)]
+    inner = [f for f in fors_ if any(isinstance(getattr(f, "_parent", None), ast.For) and f._parent is g for g in fors_)]
+    ok, det = len(fors_) == 2 and len(inner) == 1 and isinstance(inner[0].target, ast.Name) and isinstance(inner[0]._parent.target, ast.Name), "collection loops not found"
+    result_c = None
+    if ok:
+        outer = inner[0]._parent
+        ov, iv = outer.target.id, inner[0].target.id
+        ok = norm(outer.iter).endswith(".partial_entries") and norm(inner[0].iter) == f"{ov}.sample_entries"
+        det = "" if ok else f"loops run over `{norm(outer.iter)}` / `{norm(inner[0].iter)}`"
+        K = f"{iv}.index"
+        seen_new = seen_old = 0
+        for kind, path, edge in scfg.iteration_paths(scfg.loop_of(inner[0])):
+            if kind == "exit" and len(path) == 1:
+                continue
+            if kind != "back":
+                ok, det = False, "a sample can end the collection early"
+                continue
+            pr = _wo(ctx, sf, scfg, path)
+            member = None
+            for c_, t_ in _nco(pr):
+                m_ = re.fullmatch(r"(In|NotIn)\(" + re.escape(K) + r",(?:\((\w+)\)\.keys\(\)|(\w+))\)", c_.replace("~", ""))
+                if m_:
+                    member = ((m_.group(1) == "In") == t_, m_.group(2) or m_.group(3))
+            adds, marks = [], []
+            for s_ in pr.steps:
+                st = s_.ast
+                if s_.kind != "stmt" or st is None:
+                    continue
+                if isinstance(st, ast.Assign) and len(st.targets) == 1 and isinstance(st.targets[0], ast.Subscript) and isinstance(st.targets[0].value, ast.Name):
+                    kk = _evo(ctx, sf, s_.env).ev(st.targets[0].slice).key().replace("~", "")
+                    adds.append((st.targets[0].value.id, kk))
+                    marks.append((st.targets[0].value.id, kk))
+                elif isinstance(st, ast.Expr) and isinstance(st.value, ast.Call) and isinstance(st.value.func, ast.Attribute) and isinstance(st.value.func.value, ast.Name):
+                    if st.value.func.attr == "append" and len(st.value.args) == 1:
+                        adds.append((st.value.func.value.id, None))
+                    elif st.value.func.attr == "add" and len(st.value.args) == 1:
+                        marks.append((st.value.func.value.id, _evo(ctx, sf, s_.env).ev(st.value.args[0]).key().replace("~", "")))
+            if member is None:
+                ok, det = False, "an iteration does not test whether the sample's index was seen"
+            elif member[0]:
+                seen_old += 1
+                if adds or marks:
+                    ok, det = False, "a sample whose index was already collected is added again"
+            else:
+                seen_new += 1
+                good = len(adds) == 1 and any(c_ == member[1] and k_ == K for c_, k_ in marks) and len(marks) == 1
+                if not good:
+                    ok, det = False, f"a new sample leads to {len(adds)} additions and index marks {marks}"
+                else:
+                    result_c = adds[0][0]
+        ok = ok and seen_new >= 1 and seen_old >= 1
+        if ok:
+            from .sem import path_return_ast as _pra
+            rets = [p_ for p_ in run_paths(ctx, sf, rule="O1", limit=2000) if p_.end == "return"]
+            def _is_result(e_):
+                if isinstance(e_, ast.Name) and e_.id == result_c:
+                    return True
+                return isinstance(e_, ast.Call) and norm(e_) == f"list({result_c}.values())"
+            rr_ = [r for r in own_nodes(sf) if isinstance(r, ast.Return)]
+            ok = bool(rr_) and all(r.value is not None and (_is_result(r.value) or (isinstance(r.value, ast.Name) and any(
+                isinstance(a_, ast.Assign) and norm(a_.targets[0]) == r.value.id and _is_result(a_.value) for a_ in own_nodes(sf)))) for r in rr_)
+            det = "" if ok else "what is returned is not the collection that was filled"
+    ctx.ob("O1", sf, "every sample of every partial of a patch is collected once, keyed by its sample index", ok, det, inst="collect-samples")
     pf = ctx.fn(RO + "performance_entry.py", "PerformanceEntry.files", "O1")
     from .sem import list_builder, canon_expr, single_defs
     # the two collections are built per patch, in patch order; files = programs followed by samples
